@@ -29,6 +29,8 @@ class PipelineMonitor:
         self.ctx, self.fl = ctx, fl
         self.oracle = W.Oracle(fl)
         self.declared = {}  # id(engine) -> {output variable name: defuzzifier as the workload configured it}
+        self.weights = {}  # id(engine) -> {(block, rule): weight the workload gave the rule}
+        self.rejected = {}  # id(engine) -> {(block, rule)} whose load the workload saw rejected (they must stay out of everything)
 
     def install(self, probe):
         fl = self.fl
@@ -135,8 +137,8 @@ class PipelineMonitor:
             for op in (rb.conjunction, rb.disjunction, rb.implication):
                 if op is not None and type(op).__name__ not in N.REF:
                     return "custom operator"
-            for rule in rb.rules:
-                if not rule.is_loaded():
+            for ri, rule in enumerate(rb.rules):
+                if not rule.is_loaded() and (engine.rule_blocks.index(rb), ri) not in self.rejected.get(id(engine), ()):
                     return "unloaded rule"
         for ov in engine.output_variables:
             if ov.defuzzifier is None or (ov.aggregation is not None and type(ov.aggregation).__name__ not in N.REF):
@@ -170,8 +172,14 @@ class PipelineMonitor:
             ctx.violation(f"process() raised {type(exc).__name__} on a ready engine", dict(case, error=repr(exc)[:300]), "no error", repr(exc)[:300])
             return
         select = lambda activation, deg, loaded: c08.select(*c08.params_of(fl, activation), deg, loaded)  # noqa: E731
+        rejected = self.rejected.get(id(engine), set())
+        for bi, ri in rejected:
+            ctx.hit("piece:rule whose load was rejected")
+            if engine.rule_blocks[bi].rules[ri].is_loaded():
+                ctx.violation("a rule whose load was rejected reports loaded and takes part in processing", dict(case, rule=engine.rule_blocks[bi].rules[ri].text), False, True)
+                return
         try:
-            contrib, degrees = self.oracle.contributions(engine, select)
+            contrib, degrees = self.oracle.contributions(engine, select, rejected, self.weights.get(id(engine)))
         except W.RuleSyntax as ex:
             ctx.hit(f"out_of_domain:rule text outside the documented grammar ({ex})")
             return
@@ -304,13 +312,15 @@ def run(ctx):
         mon.install(probe)
         for i, rnd in ctx.cases("engines", nengines):
             general = i % 3 != 2
-            spec = E.gen_engine(rnd, activations=("General",) if general else tuple(c08.METHODS), d=rnd.choice([1, 3, 3]), allow_output_antecedent=general, free_weights=True, share_defuzzifier=True, routes=True)
+            spec = E.gen_engine(rnd, activations=("General",) if general else tuple(c08.METHODS), d=rnd.choice([1, 3, 3]), allow_output_antecedent=general, free_weights=True, share_defuzzifier=True, routes=True, broken_rules=True)
             try:
                 engine = E.build(fl, spec)
             except Exception as ex:
                 ctx.hit(f"inconclusive:generated engine does not build: {type(ex).__name__}: {str(ex)[:80]}")
                 continue
             shared = spec.get("shared_defuzzifier")
+            mon.rejected = {id(engine): E.rejected_rules(spec)}
+            mon.weights = {id(engine): {(bi, ri): r["weight"] for bi, rb in enumerate(spec["blocks"]) for ri, r in enumerate(rb["rules"])}}
             mon.declared = {id(engine): {o["name"]: (dict(cls=shared, type="Automatic") if (shared and o["defuzzifier"] and "type" in o["defuzzifier"]) else o["defuzzifier"]) for o in spec["outputs"]}}
             rows = E.rows(rnd, spec, nrows)
             k = 0
@@ -334,7 +344,7 @@ def run(ctx):
         probe.report(ctx)
         reach.report(ctx)
     ctx.require("hook:Engine.process", "compare:rule degree", "compare:fuzzy output", "compare:output value", "compare:disabled output", "rows:batch", "rows:scalar", "glue:Activated.membership", "glue:Aggregated.membership")
-    ctx.require("piece:disabled rule block", "piece:disabled rule", "piece:disabled variable", "piece:weighted rule", "piece:output variable in antecedent")
+    ctx.require("piece:rule whose load was rejected", "piece:disabled rule block", "piece:disabled rule", "piece:disabled variable", "piece:weighted rule", "piece:output variable in antecedent")
     if ctx.nshards == 1:
         for m in c08.METHODS:
             ctx.require(f"activation:{m}")
